@@ -492,7 +492,14 @@ func cloneVal(a interface{}) interface{} {
 	return a
 }
 
-func descVal(a interface{}) string {
+func descVal(a interface{}) (out string) {
+	// a tree under test may be corrupt (keys rewritten in place behind a map's back): describing it
+	// must never take the harness down
+	defer func() {
+		if r := recover(); r != nil {
+			out = fmt.Sprintf("<value that cannot even be printed: %v>", r)
+		}
+	}()
 	b, err := json.Marshal(a)
 	if err != nil {
 		return fmt.Sprintf("%#v", a)
